@@ -1258,6 +1258,12 @@ func ruleQueueDiscipline(c *Ctx, rule string) {
 		// afterwards must not be delivered behind that gap): every return of an item has tested cancelled == false since the
 		// last wake-up
 		okLive, nItem := true, 0
+		// … and what is handed out is the element just removed from the front (never a zero value reported as an item)
+		itemAt := map[ssa.Instruction]ssa.Value{}
+		if fn.Signature.Results().Len() == 2 {
+			forEachReturnValue(fn, 1-okIdx, func(v ssa.Value, at ssa.Instruction) { itemAt[at] = v })
+		}
+		okReal := true
 		forEachReturnValue(fn, okIdx, func(v ssa.Value, at ssa.Instruction) {
 			if isConstBool(v, false) {
 				return
@@ -1266,7 +1272,17 @@ func ruleQueueDiscipline(c *Ctx, rule string) {
 			if !notCancelledOnEveryPath(fn, at, closedFlag, cancelFlag) {
 				okLive = false
 			}
+			if iv, has := itemAt[at]; has && len(rem) == 1 {
+				ta, isTA := stripConv(origin(iv)).(*ssa.TypeAssert)
+				if !isTA {
+					ta, isTA = stripConv(iv).(*ssa.TypeAssert)
+				}
+				if !isTA || ta.X != ssa.Value(rem[0]) {
+					okReal = false
+				}
+			}
 		})
+		c.check(okReal, rule, name+": every item handed out is the removed front element", w.Pos(fn.Pos()), "item = Remove(Front()) on every return that reports an item", "dequeue reports an item on a return whose value is not the element it removed from the queue (a zero value delivered as a message)")
 		c.check(okLive && nItem >= 1, rule, name+": no item handed out after cancel", w.Pos(fn.Pos()), "every item return follows a test that "+cancelFlag.Field+" is false", "dequeue can return an item although the stream was cancelled ("+cancelFlag.String()+" is not tested before the queue): cancel() discards the queued frames, a frame that arrives afterwards is delivered behind the gap — the application sees a message sequence with a hole")
 		c.check(okDrain && nExits >= 1, rule, name+": queued data drained before end-of-stream", w.Pos(fn.Pos()), "the closed exit is taken only with an empty queue", "dequeue can report end-of-stream while items are still queued (closed tested before the queue): messages sent before half-close/close_stream are lost")
 		// wait only when empty and not closed; loop re-tests after waking
